@@ -106,7 +106,7 @@ def c13_eval(cfg, opt):
 
 def check_c13(prop, tier):
     res = common.Result(prop, tier)
-    B = C13_BOUNDS[tier]
+    B = common.bounds(C13_BOUNDS, tier)
     res.bounds = dict(B)
     opt = binomial_table(res, B["LA"], B["BS"] + 1)
     cfgs = []
@@ -224,7 +224,7 @@ def c14_profile(cfg):
 
 def check_c14(prop, tier):
     res = common.Result(prop, tier)
-    B = C14_BOUNDS[tier]
+    B = common.bounds(C14_BOUNDS, tier)
     res.bounds = dict(B)
     groups = []
     for n in range(1, B["N"] + 1):
@@ -366,7 +366,7 @@ def mixed_stream(cfg, forced):
 
 def check_c16(prop, tier):
     res = common.Result(prop, tier)
-    B = C16_BOUNDS[tier]
+    B = common.bounds(C16_BOUNDS, tier)
     res.bounds = dict(B)
     mixed = common.repo_mod("mixed")
     # ---- planner tables, entry by entry
@@ -586,7 +586,7 @@ def c19_eval(cfg, m):
 
 def check_c19(prop, tier):
     res = common.Result(prop, tier)
-    B = C19_BOUNDS[tier]
+    B = common.bounds(C19_BOUNDS, tier)
     res.bounds = dict(B)
     costs = D.COSTS_QUICK if tier == "quick" else D.COSTS_ALL
     # memory-only optimum: validate the closed form on the state graph
